@@ -104,8 +104,15 @@ var c03NpmOps = []string{"", "=", ">", ">=", "<", "<=", "^", "~", "~>"}
 // c03NpmComparator: text of one comparator and its primitive bounds (node-semver 7, Appendix A).
 var c03LtZero bool // some comparator of the current requirement is '<' on an all-zero version without prerelease
 
+// c03OpOverride / c03XSpelling let the Cargo harness reuse the desugaring: same bounds, Cargo's spelling.
+var c03OpOverride = ""
+var c03XSpelling = ".x"
+
 func c03NpmComparator(tag string) (string, []c03Prim) {
 	op := c03NpmOps[vParam(tag+"op")]
+	if c03OpOverride != "" {
+		op = c03OpOverride
+	}
 	ncomp := vParam(tag + "n")
 	pre := vParam(tag+"pre") == 1
 	if ncomp == 0 { // "*"
@@ -113,7 +120,7 @@ func c03NpmComparator(tag string) (string, []c03Prim) {
 	}
 	txt, v, n := c03Partial(tag, ncomp, pre)
 	if vParam(tag+"x") == 1 && n < 3 { // explicit x-range spelling
-		txt += ".x"
+		txt += c03XSpelling
 	}
 	up := pre && n == 3
 	lo := c03Prim{op: ">=", v: v, userPre: up}
@@ -426,4 +433,58 @@ func VerifC03Maven() {
 	vCover(want, "reference matches")
 	vCover(vNot(want), "reference rejects")
 	vAssert(got == want, "matching agrees with Maven's VersionRange")
+}
+
+// ---- Cargo: the semver crate's VersionReq. Comma = AND; a bare version is a caret requirement; =, >, >=, <,
+// <=, ~, ^ on full or partial versions desugar to the same primitive bounds as node-semver's (~I is =I,
+// =I.J is >=I.J.0 <I.(J+1).0, ...); wildcards are spelled .*; a prerelease candidate matches only if some
+// comparator carries a prerelease on the same major.minor.patch.
+
+var c03CargoOps = []string{"", "=", ">", ">=", "<", "<=", "^", "~"}
+
+func c03CargoComparator(tag string) (string, []c03Prim) {
+	op := c03CargoOps[vParam(tag+"op")]
+	sem := op
+	if op == "" {
+		sem = "^"
+		if vParam(tag+"x") == 1 && vParam(tag+"n") < 3 {
+			sem = "=" // 1.* and 1.2.* are wildcard requirements: every version with that prefix
+		}
+	}
+	c03OpOverride, c03XSpelling = sem, ".*"
+	txt, prims := c03NpmComparator(tag)
+	c03OpOverride, c03XSpelling = "", ".x"
+	return op + txt[len(sem):], prims
+}
+
+func VerifC03Cargo() {
+	c03LtZero = false
+	var text string
+	var prims []c03Prim
+	if vParam("shape") == 0 {
+		text, prims = c03CargoComparator("a")
+	} else {
+		ta, pa := c03CargoComparator("a")
+		tb, pb := c03CargoComparator("b")
+		text, prims = ta+", "+tb, append(pa, pb...)
+	}
+	cand, cv := c03Candidate("v")
+	if vParam("kf_c03_lt_zero_prerelease") == 1 {
+		vAssume(vNot(vAnd(c03LtZero, vAnd(vAnd(cv.M == 0, cv.m == 0), vAnd(cv.p == 0, cv.pre != 100)))))
+	}
+	vObserveStr("req", text)
+	vObserveStr("cand", cand)
+	want := c03MatchSet(cv, prims)
+	c, err := Cargo.ParseConstraint(text)
+	vAssert(err == nil, "a requirement the reference accepts is not rejected")
+	if err != nil {
+		return
+	}
+	vCover(true, "requirement parsed")
+	got := c.Match(cand)
+	vObserveBool("got", got)
+	vObserveBool("want", want)
+	vCover(want, "reference matches")
+	vCover(vNot(want), "reference rejects")
+	vAssert(got == want, "matching agrees with the semver crate's VersionReq")
 }
